@@ -23,7 +23,7 @@ PROPS['C20'] = dict(
     not_decided=['api()/_api_of are outside the statement'],
 )
 PROPS['C13'] = dict(
-    modules=['specs.arglist', 'contracts.arglist'],
+    modules=['specs.arglist', 'contracts.arglist', 'lemmas.arglist'],
     bounded=['bounded.arglist'],
     level='proof',
     design_ref='DESIGN.md §4 C13',
